@@ -67,7 +67,9 @@ impl Case for HistCase {
 }
 
 fn policy(k: u8) -> RegexManagerDiscardPolicy {
-    match k % 4 {
+    match k % 5 {
+        // "never discard", written as the largest duration
+        4 => RegexManagerDiscardPolicy { cleanup_interval: Duration::from_nanos(1), discard_unused_time: Duration::MAX },
         0 => RegexManagerDiscardPolicy::default(),
         1 => RegexManagerDiscardPolicy { cleanup_interval: Duration::from_nanos(1), discard_unused_time: Duration::from_nanos(0) },
         2 => RegexManagerDiscardPolicy { cleanup_interval: Duration::from_nanos(1), discard_unused_time: Duration::from_secs(3600) },
@@ -98,10 +100,29 @@ fn has_priority_ties(rules: &[String]) -> bool {
     false
 }
 
+/// Lists with equal-priority redirects leave the choice between the tied resources free, so they
+/// are not compared with the history model; but whatever is chosen is a function of the rules and
+/// the request: the same query repeated, and a second engine built from the same list, agree.
+fn tie_determinism(c: &FullCase, obs: &mut Obs) -> Result<(), String> {
+    let res = gen::scriptlet_resources();
+    let e1 = build_engine(&c.rules, c.debug, c.optimize, &res);
+    let e2 = build_engine(&c.rules, c.debug, c.optimize, &res);
+    let a = engine_answers(&e1, c, None);
+    obs.inner_evals += a.len() as u64;
+    obs.label("priority-tie-determinism");
+    for (how, b) in [("repeated on the same engine", engine_answers(&e1, c, None)), ("on a second engine built from the same list", engine_answers(&e2, c, None)), ("repeated once more", engine_answers(&e1, c, None))] {
+        if a != b {
+            let d: Vec<_> = a.iter().zip(b.iter()).filter(|(x, y)| x != y).take(2).collect();
+            return Err(format!("the same queries {} give different answers (rules {:?}): {:?}", how, c.rules, d));
+        }
+    }
+    Ok(())
+}
+
 pub fn check_engine(c: &HistCase, obs: &mut Obs) -> Result<(), String> {
     if has_priority_ties(&c.base.rules) || has_priority_ties(&c.rules2) {
-        obs.exclude("redirect-priority-tie (choice is free)");
-        return Ok(());
+        obs.exclude("redirect-priority-tie (choice is free; only determinism is checked)");
+        return tie_determinism(&c.base, obs);
     }
     let mut res = gen::scriptlet_resources();
     let mut rules = c.base.rules.clone();
@@ -290,7 +311,13 @@ pub fn check_blocker(c: &BlkCase, obs: &mut Obs) -> Result<(), String> {
         match op {
             Op::Query | Op::QueryOne(_) => {
                 if has_priority_ties(&rules) {
-                    obs.exclude("redirect-priority-tie (choice is free)");
+                    obs.exclude("redirect-priority-tie (choice is free; only determinism is checked)");
+                    let a = blocker_answers(&b, &res, &c.reqs, None);
+                    let fresh1 = blocker_of(&rules, c.optimize);
+                    let fresh2 = blocker_of(&rules, c.optimize);
+                    if a != blocker_answers(&b, &res, &c.reqs, None) || blocker_answers(&fresh1, &res, &c.reqs, None) != blocker_answers(&fresh2, &res, &c.reqs, None) {
+                        return Err(format!("the same queries repeated (or asked of two blockers built from the same list {:?}) give different answers", rules));
+                    }
                     return Ok(());
                 }
                 let only = if let Op::QueryOne(i) = op { Some(*i) } else { None };
@@ -395,7 +422,7 @@ fn ops(t: &mut Tape, nq: usize, blocker: bool, extra_pool: &[String]) -> Vec<Op>
             5..=6 => Op::Use(tagset(t)),
             7 => Op::Enable(tagset(t)),
             8 => Op::Disable(tagset(t)),
-            9 => Op::Policy(t.pick(4) as u8),
+            9 => Op::Policy(t.pick(5) as u8),
             10..=11 => Op::DiscardRegex(t.pick(16)),
             12 => if blocker { Op::Optimize } else { Op::ReloadSelf },
             15 if !blocker => if t.chance(1, 2) { Op::UseResources(t.pick(3) as u8) } else { Op::AddResource(t.pick(4) as u8) },
@@ -418,6 +445,13 @@ fn ops(t: &mut Tape, nq: usize, blocker: bool, extra_pool: &[String]) -> Vec<Op>
 fn regexy_rule(t: &mut Tape) -> String {
     let w = t.choose(&["ads", "banner", "track", "pixel"]);
     let o = t.choose(&["foo", "bar", "img", "x1"]);
+    if t.chance(1, 6) {
+        // one regex text under two spellings that differ only in match-case (and in the request type
+        // they apply to): the compiled forms differ although the pattern text is the same
+        let (ty, mc) = if t.chance(1, 2) { ("script", ",match-case") } else { ("image", "") };
+        let w2 = t.choose(&["Ads", "Banner"]);
+        return format!("/\\/{}Unit\\d?\\/{}/${}{}", w2, o, ty, mc);
+    }
     let p = match t.pick(9) {
         0 | 1 => format!("/{}^{}", w, o),
         2 | 3 => format!("/{}*{}", w, o),
@@ -443,6 +477,12 @@ fn regexy_reqs(t: &mut Tape) -> Vec<ReqSpec> {
     for _ in 0..(2 + t.pick(8)) {
         let w = t.choose(&["ads", "banner", "track", "pixel"]);
         let o = t.choose(&["foo", "bar", "img", "x1"]);
+        if t.chance(1, 5) {
+            // probes for the match-case twins: both case spellings, both request types
+            let w2 = t.choose(&["Ads", "Banner", "ads", "banner"]);
+            v.push(ReqSpec { url: format!("https://a.com/{}{}1/{}", w2, t.choose(&["Unit", "unit"]), o), source: "https://site.org/".into(), rtype: t.choose(&["script", "image"]).to_string() });
+            continue;
+        }
         let u = match t.pick(4) {
             0 => format!("https://a.com/{}/{}", w, o),
             1 => format!("https://a.com/{}x{}", w, o),
@@ -560,11 +600,11 @@ pub fn check_incremental(c: &gen::NetCase, obs: &mut Obs) -> Result<(), String> 
 }
 
 pub fn check(ctx: &mut Ctx) {
-    ctx.rule = "engine: rule list (network + cosmetic + same-shape tagged regex rules) and a history of 4-24 ops over {query all, query one, use/enable/disable tags, set discard policy (default / discard-everything-always / 1ns,1h / disabled), discard_regex(k-th cached id), serialize+deserialize own bytes, deserialize a sibling engine's bytes, use_resources(one of 3 sets), add_resource(one of 4)}; blocker: the same plus Blocker::optimize() and Blocker::add_filter(line). After every query op all answers (network verdict, csp set, cosmetic resources, class/id selectors) are compared with a freshly built engine/blocker from the model's current rules + tag set. many-regexes: 2-800 same-shape (mostly regex) rules queried one after the other, twice, on one live blocker, sampled answers compared with a blocker built fresh for that single query. incremental: C01-style lists (1-20 rules, tags) loaded in one batch (Blocker::new) and one rule at a time (Blocker::add_filter on an empty blocker): equal answers on all requests. Non-trivial = a query op that follows at least one mutator.".into();
+    ctx.rule = "engine: rule list (network + cosmetic + same-shape tagged regex rules) and a history of 4-24 ops over {query all, query one, use/enable/disable tags, set discard policy (default / discard-everything-always / 1ns,1h / disabled / 1ns,Duration::MAX), discard_regex(k-th cached id), serialize+deserialize own bytes, deserialize a sibling engine's bytes, use_resources(one of 3 sets), add_resource(one of 4)}; blocker: the same plus Blocker::optimize() and Blocker::add_filter(line). After every query op all answers (network verdict, csp set, cosmetic resources, class/id selectors) are compared with a freshly built engine/blocker from the model's current rules + tag set. many-regexes: 2-800 same-shape (mostly regex) rules queried one after the other, twice, on one live blocker, sampled answers compared with a blocker built fresh for that single query. incremental: C01-style lists (1-20 rules, tags) loaded in one batch (Blocker::new) and one rule at a time (Blocker::add_filter on an empty blocker): equal answers on all requests. Non-trivial = a query op that follows at least one mutator.".into();
     ctx.assumptions = vec![
         "elapsed time is exercised through discard policies and explicit discards; the wall clock is never consulted by the oracle".into(),
         "add_filter of a $badfilter rule, or of a rule an existing $badfilter targets, is documented as unsupported and skipped (counted)".into(),
-        "lists with two equal-priority redirect rules naming different resources are skipped (the choice between them is free)".into(),
+        "lists with two equal-priority redirect rules naming different resources are not compared with the history model (the choice between them is free); for them only determinism is checked: the same queries repeated, and asked of a second engine built from the same list, agree".into(),
     ];
     let n = ctx.tier.pick(30_000, 500_000);
     drive(ctx, "engine", n, 1500, &decode_engine, &check_engine);
